@@ -321,11 +321,15 @@ def _exc_info(ex, st, args, kwargs, text):
     st.assume(z3.And(V.is_obj(deeper), Val.ref(deeper) >= 0))
     # tb_next is None exactly when the exception was raised in the handling frame itself (by the call instruction, for
     # an exception coming out of a call: the callee's body never ran)
-    st.write(Val.ref(tb), "tb_next", z3.If(raised_at_call(Val.ref(e)), V.VNone, deeper))
+    here = z3.And(raised_at_call(Val.ref(e)), exc_depth(Val.ref(e)) == z3.IntVal(getattr(ex, "inline_depth", 0)))
+    st.write(Val.ref(tb), "tb_next", z3.If(here, V.VNone, deeper))
     return [(st, ("val", V.mk_tuple([V.VType(C.cls_of(Val.ref(e))), e, tb])))]
 
 
 raised_at_call = z3.Function("raised_at_call", z3.IntSort(), z3.BoolSort())
+# nesting of the frame whose call instruction raised, counted in helper functions executed in place (a helper's frame sits
+# between the handler and the failing call: the handler then sees a non-empty tb_next)
+exc_depth = z3.Function("exc_depth", z3.IntSort(), z3.IntSort())
 FIELDS.declare("builtins.traceback", "tb_next")
 
 
@@ -451,6 +455,7 @@ def _env_call(ex, st, f, argv, kw, text, base=Exception):
     be = V.fresh("bind_err", z3.BoolSort())
     s_ex.assume(z3.Implies(be, C.exact(C.cls_of(Val.ref(e)), TypeError)))
     s_ex.assume(raised_at_call(Val.ref(e)) == be)       # binding failed <=> no frame of the callee in the traceback
+    s_ex.assume(exc_depth(Val.ref(e)) == z3.IntVal(getattr(ex, "inline_depth", 0)))
     s_ex.ghost["env_kind"] = z3.IntVal(1)
     s_ex.ghost["env_val"] = e
     s_ex.ghost["bind_err"] = be
